@@ -48,6 +48,27 @@ pub fn adapt(h: &LoopHandle<'static, ()>, kind: AdaptFd, ctx: Ctx) {
                 sysx::write_fd(p.as_raw_fd(), b"x");
             }
             w(|w| w.count("adapter_armed_and_made_ready"));
+        } else if raw % 4 == 1 {
+            // a wait for readability is begun and abandoned while pending; the adapter is then asked for writability:
+            // the registration the kernel holds must be the one asked for last
+            use std::future::Future;
+            let wk = futures::task::noop_waker();
+            let mut cx = std::task::Context::from_waker(&wk);
+            let mut fut = Box::pin(a.readable());
+            let _ = fut.as_mut().poll(&mut cx);
+            drop(fut);
+            let mut fut = Box::pin(a.writable());
+            let _ = fut.as_mut().poll(&mut cx);
+            drop(fut);
+            w(|w| {
+                w.count("adapter_read_abandoned_then_write_armed");
+                let table = sysx::epoll_table(w.epfd);
+                if let Some(e) = table.iter().find(|e| e.tfd == raw) {
+                    if e.events & 0xC000_001f != 0x4000_001c {
+                        w.alarm("C16.exact", "wrong-interest-or-mode", format!("fd {} of an adapter last asked to wait for writability is registered with events {:#x}", raw, e.events));
+                    }
+                }
+            });
         }
         a
     });
